@@ -2,7 +2,9 @@
  *
  *   <id> life hist <schemaset> <ctxopts> <script>
  *        <script> = op;op;...      op = name:arg:arg...    string args hex ("-" = "", "~" = NULL), ints decimal
- *        node selector (string): "#<k>" = k-th node of the slot in DFS order (mod node count), otherwise a data path
+ *        node selector (string): "#<k>" = k-th node of the slot in DFS order (mod node count); with % $ * ! @ ^ instead of #
+ *        the k-th opaque node / non-key leaf / leaf-list instance or key / any node / inner node / node with metadata;
+ *        otherwise a data path
  *   -> <id> ok rc=<per-op LY_ERR, -1 = op not applicable (empty slot, wrong node kind), comma list>
  *              drec=<dictionary records after freeing all trees minus baseline> dref=<same for the sum of refcounts>
  *              mid=<n of intermediate all-freed points where the dictionary differed from the baseline>
@@ -10,7 +12,7 @@
  *              warn=<"not freed from the dictionary" warnings during ly_ctx_destroy> eint=<"Internal error" messages>
  *              onn=<ops that failed but left a non-NULL output> integ=<broken node links seen by the integrity walk>
  *              lost=<(leaf-)list instances their own sibling lookup does not find> live=<slots alive before the final free>
- *              leak=<VP_LEAKCHECK()>
+ *              heap=<1 when the byte balance of the heap differs from that of an empty history> leak=<VP_LEAKCHECK(), run when heap=1 or forced by ctxopts bit 30>
  *   <id> life schema <n>           -> <id> ok <hex of built-in schema set n, modules joined by \n\0\n marker "\n----\n">
  *   <id> life printmod <hex name> <fmt>   (fresh context; module printed with lys_print_mem)  -> <id> ok <hex>
  *
@@ -170,7 +172,7 @@ static struct lyd_node *ghost[MAXGHOST];
 static int nghost;
 static long base_rec, base_ref;
 static int n_warn, n_eint, n_onn, n_integ, n_lost, n_mid;
-static int in_destroy;
+static int debug;
 
 static void
 logcb(LY_LOG_LEVEL level, const char *msg, const char *data_path, const char *schema_path, uint64_t line)
@@ -178,6 +180,9 @@ logcb(LY_LOG_LEVEL level, const char *msg, const char *data_path, const char *sc
     (void)level; (void)data_path; (void)schema_path; (void)line;
     if (!msg) {
         return;
+    }
+    if (debug) {
+        fprintf(stderr, "LOG[%d] %s (%s)\n", (int)level, msg, data_path ? data_path : (schema_path ? schema_path : ""));
     }
     if (strstr(msg, "not freed from the dictionary")) {
         n_warn++;
@@ -305,19 +310,42 @@ count_nodes(struct lyd_node *first)
     return c;
 }
 
+/* what a selector asks for: '#' any node, '%' opaque nodes, '$' non-key leaves, '*' leaf-list instances and list keys,
+ * '!' anydata/anyxml nodes, '@' inner nodes, '^' nodes with metadata */
+static int
+sel_match(const struct lyd_node *n, char kind)
+{
+    switch (kind) {
+    case '#': return 1;
+    case '%': return !n->schema;
+    case '$': return n->schema && (n->schema->nodetype == LYS_LEAF) && !(n->schema->flags & LYS_KEY);
+    case '*': return n->schema && ((n->schema->nodetype == LYS_LEAFLIST) || ((n->schema->nodetype == LYS_LEAF) && (n->schema->flags & LYS_KEY)));
+    case '!': return n->schema && (n->schema->nodetype & LYD_NODE_ANY);
+    case '@': return n->schema && (n->schema->nodetype & LYD_NODE_INNER);
+    case '^': return n->schema && n->meta;
+    }
+    return 0;
+}
+
 static struct lyd_node *
-kth_node(struct lyd_node *first, long k)
+kth_node(struct lyd_node *first, char kind, long k)
 {
     struct lyd_node *root, *elem;
-    long c = count_nodes(first);
+    long c = 0;
 
+    LY_LIST_FOR(first, root) {
+        LYD_TREE_DFS_BEGIN(root, elem) {
+            c += sel_match(elem, kind);
+            LYD_TREE_DFS_END(root, elem);
+        }
+    }
     if (!c) {
         return NULL;
     }
     k = ((k % c) + c) % c;
     LY_LIST_FOR(first, root) {
         LYD_TREE_DFS_BEGIN(root, elem) {
-            if (!k--) {
+            if (sel_match(elem, kind) && !k--) {
                 return elem;
             }
             LYD_TREE_DFS_END(root, elem);
@@ -335,8 +363,8 @@ sel(int s, const char *how)
     if (!slot[s] || !how) {
         return NULL;
     }
-    if (how[0] == '#') {
-        return kth_node(slot[s], strtol(how + 1, NULL, 10));
+    if (strchr("#%$*!@^", how[0]) && how[0]) {
+        return kth_node(slot[s], how[0], strtol(how + 1, NULL, 10));
     }
     if (lyd_find_path(slot[s], how, 0, &m) && lyd_find_path(slot[s], how, 1, &m)) {
         return NULL;
@@ -924,13 +952,16 @@ do_op(const struct op *o, int idx)
 
     /* ---------------- value change ---------------- */
     if (IS("ct") || IS("ctb")) {
-        /* ct:s:nsel:value   lyd_change_term  |  ctb: lyd_change_term_bin */
+        /* ct:s:nsel:value:any   lyd_change_term  |  ctb: lyd_change_term_bin.
+         * any=0: leaf-list instances and list keys are not touched (-1); value changes that re-index the node in its
+         * parent's hash table are generated as a separate stream (known finding F19) */
         int s = A_slot(o, 1);
         struct lyd_node *n = sel(s, A_s(o, 2, NULL));
         size_t vl;
         char *v = A_s(o, 3, &vl);
 
         if (!n || !v) return -1;
+        if (!A_i(o, 4) && n->schema && ((n->schema->nodetype == LYS_LEAFLIST) || (n->schema->flags & LYS_KEY))) return -1;
         add_ghost(n);
         rc = IS("ct") ? lyd_change_term(n, v) : lyd_change_term_bin(n, v, vl);
         /* the changed instance may have moved among its siblings */
@@ -1294,13 +1325,103 @@ do_op(const struct op *o, int idx)
 
 /* ------------------------------------------------------------------------------------------------------------ */
 
+/* Contexts are built once per (schema set, options) in the parent; every history runs in a forked child on its own
+ * copy-on-write copy, so each history still sees a pristine context (and destroys it). */
+#define CTX_OPTS_MASK (LY_CTX_NO_YANGLIBRARY | LY_CTX_SET_PRIV_PARSED | LY_CTX_LEAFREF_EXTENDED | LY_CTX_LEAFREF_LINKING | \
+        LY_CTX_REF_IMPLEMENTED | LY_CTX_ALL_IMPLEMENTED)
+#define MAXCACHE 32
+static struct { int set; uint32_t opts; struct ly_ctx *ctx; long bytes; } cache[MAXCACHE];
+static int ncache;
+
+/* Cheap leak pre-check: destroying the context must give back exactly the bytes that destroying a pristine context of the
+ * same kind gives back (measured once in the parent); only when the byte balance differs - or on request - the (slow)
+ * LeakSanitizer pass runs and decides. A leak always shifts the balance, so nothing is missed by the filter. */
+#ifdef __has_feature
+# if __has_feature(address_sanitizer)
+size_t __sanitizer_get_current_allocated_bytes(void);
+#  define HEAP_BYTES() ((long)__sanitizer_get_current_allocated_bytes())
+# endif
+#endif
+#ifndef HEAP_BYTES
+# define HEAP_BYTES() 0L
+#endif
+#define FORCE_LSAN 0x40000000u
+static long expect_bytes;
+
+static struct ly_ctx *
+new_ctx(int set, uint32_t opts)
+{
+    struct ly_ctx *c = NULL;
+    const char *const *mods;
+    int cnt = 0, i;
+
+    if (ly_ctx_new(NULL, opts, &c) || !c) {
+        return NULL;
+    }
+    mods = schema_set(set, &cnt);
+    for (i = 0; i < cnt; i++) {
+        if (lys_parse_mem(c, mods[i], LYS_IN_YANG, NULL)) {
+            ly_ctx_destroy(c);
+            return NULL;
+        }
+    }
+    return c;
+}
+
+static void
+prepare_ctx(int set, uint32_t opts)
+{
+    int i;
+
+    opts &= CTX_OPTS_MASK;
+    for (i = 0; i < ncache; i++) {
+        if ((cache[i].set == set) && (cache[i].opts == opts)) {
+            return;
+        }
+    }
+    if (ncache < MAXCACHE) {
+        struct ly_ctx *c;
+        long b1, b2;
+
+        cache[ncache].set = set;
+        cache[ncache].opts = opts;
+        cache[ncache].ctx = new_ctx(set, opts);
+        /* calibration: what the destruction of one more such context releases */
+        c = new_ctx(set, opts);
+        b1 = HEAP_BYTES();
+        ly_ctx_destroy(c);
+        b2 = HEAP_BYTES();
+        cache[ncache].bytes = b1 - b2;
+        ncache++;
+    }
+}
+
+static struct ly_ctx *
+cached_ctx(int set, uint32_t opts)
+{
+    struct ly_ctx *c;
+    int i;
+
+    opts &= CTX_OPTS_MASK;
+    for (i = 0; i < ncache; i++) {
+        if ((cache[i].set == set) && (cache[i].opts == opts)) {
+            c = cache[i].ctx;
+            cache[i].ctx = NULL;
+            expect_bytes = cache[i].bytes;
+            return c;
+        }
+    }
+    expect_bytes = -1;
+    return new_ctx(set, opts);
+}
+
 static void
 run_history(const char *id, int set, uint32_t ctxopts, char *script)
 {
     static struct op ops[MAXOPS];
     static int rcs[MAXOPS];
-    int nops = 0, i, cnt = 0, live = 0, leak;
-    const char *const *mods;
+    int nops = 0, i, live = 0, leak, heap;
+    long a0, a1;
     char *p, *save1 = NULL;
     long r, s;
 
@@ -1321,24 +1442,19 @@ run_history(const char *id, int set, uint32_t ctxopts, char *script)
         }
     }
 
-    ctx = NULL;
-    if (ly_ctx_new(NULL, ctxopts & (LY_CTX_NO_YANGLIBRARY | LY_CTX_SET_PRIV_PARSED | LY_CTX_LEAFREF_EXTENDED | LY_CTX_LEAFREF_LINKING |
-            LY_CTX_REF_IMPLEMENTED | LY_CTX_ALL_IMPLEMENTED), &ctx) || !ctx) {
+    a0 = HEAP_BYTES();
+    ctx = cached_ctx(set, ctxopts);
+    if (!ctx) {
         vp_reply(id, "err CtxNew");
         return;
-    }
-    mods = schema_set(set, &cnt);
-    for (i = 0; i < cnt; i++) {
-        if (lys_parse_mem(ctx, mods[i], LYS_IN_YANG, NULL)) {
-            ly_ctx_destroy(ctx);
-            vp_reply(id, "err Schema %d", i);
-            return;
-        }
     }
     n_eint = 0;
     dict_measure(ctx, &base_rec, &base_ref);
 
     for (i = 0; i < nops; i++) {
+        if (debug) {
+            fprintf(stderr, "OP %d %s\n", i, ops[i].arg[0]);
+        }
         rcs[i] = do_op(&ops[i], i);
         tmp_free();
         integrity();
@@ -1352,7 +1468,9 @@ run_history(const char *id, int set, uint32_t ctxopts, char *script)
     ly_err_clean(ctx, NULL);
     ly_ctx_destroy(ctx);
     ctx = NULL;
-    leak = VP_LEAKCHECK();
+    a1 = HEAP_BYTES();
+    heap = ((expect_bytes < 0) || (a0 - a1 != expect_bytes)) ? 1 : 0;
+    leak = (heap || (ctxopts & FORCE_LSAN)) ? VP_LEAKCHECK() : 0;
 
     vp_begin(id, "ok");
     fputs(" rc=", stdout);
@@ -1365,7 +1483,7 @@ run_history(const char *id, int set, uint32_t ctxopts, char *script)
         fprintf(stdout, "%s%d", i ? "," : "", sfail_idx[i]);
     }
     if (!n_sfail) fputs("-", stdout);
-    fprintf(stdout, " warn=%d eint=%d onn=%d integ=%d lost=%d live=%d leak=%d", n_warn, n_eint, n_onn, n_integ, n_lost, live, leak ? 1 : 0);
+    fprintf(stdout, " warn=%d eint=%d onn=%d integ=%d lost=%d live=%d heap=%d leak=%d", n_warn, n_eint, n_onn, n_integ, n_lost, live, heap, leak ? 1 : 0);
     vp_end();
 }
 
@@ -1377,7 +1495,7 @@ void __asan_set_error_report_callback(void (*cb)(const char *));
 static void
 asan_report_cb(const char *rep)
 {
-    char line[1200];
+    char line[1600];
     size_t n = 0;
     const char *p = strstr(rep, "ERROR: AddressSanitizer: "), *q, *e;
     int frames = 0;
@@ -1401,6 +1519,22 @@ asan_report_cb(const char *rep)
             line[n++] = *q++;
         }
     }
+    /* who freed it (use-after-free): a frame of the harness here means the library kept a pointer into memory of its caller */
+    p = strstr(rep, "freed by thread");
+    if (p) {
+        n += snprintf(line + n, sizeof line - n, " freedby=");
+        e = strstr(p, "\n\n");
+        frames = 0;
+        for (q = p; q && (q = strstr(q, " in ")) && (!e || (q < e)) && (frames < 6); ) {
+            q += 4;
+            if (frames++) {
+                line[n++] = ',';
+            }
+            while (*q && (*q != ' ') && (*q != '\n') && (n < sizeof line - 8)) {
+                line[n++] = *q++;
+            }
+        }
+    }
     line[n++] = '\n';
     if (write(2, line, n)) {}
 }
@@ -1417,6 +1551,7 @@ main(void)
     struct vp_req r = {0};
 
     VP_ASAN_CB();
+    debug = getenv("VERIF_LIFE_DEBUG") ? 1 : 0;
     ly_set_log_clb(logcb);
     ly_log_options(LY_LOLOG | LY_LOSTORE_LAST);
     ly_log_level(LY_LLWRN);
@@ -1433,6 +1568,7 @@ main(void)
             pid_t pid;
             int st = 0;
 
+            prepare_ctx(atoi(r.tok[3]), (uint32_t)strtoul(r.tok[4], NULL, 10));
             fflush(stdout);
             pid = fork();
             if (pid < 0) { vp_reply(id, "err Fork"); continue; }
@@ -1461,6 +1597,28 @@ main(void)
                 vp_field_hex(mods[i], strlen(mods[i]));
             }
             vp_end();
+        } else if (!strcmp(op, "printset") && (r.ntok == 5)) {
+            /* every module of a built-in set printed by the library itself (0 YANG, 1 YIN) */
+            int cnt = 0, i, bad = 0;
+            const char *const *mods = schema_set(atoi(r.tok[3]), &cnt);
+            struct ly_ctx *c = NULL;
+            struct lys_module *mod;
+            char *text[4] = {0};
+
+            if (!cnt || ly_ctx_new(NULL, 0, &c)) { vp_reply(id, "err NoSet"); continue; }
+            for (i = 0; i < cnt; i++) {
+                mod = NULL;
+                if (lys_parse_mem(c, mods[i], LYS_IN_YANG, &mod) || lys_print_mem(&text[i], mod, atoi(r.tok[4]) ? LYS_OUT_YIN : LYS_OUT_YANG, 0)) bad = 1;
+            }
+            if (bad) {
+                vp_reply(id, "err Print");
+            } else {
+                vp_begin(id, "ok");
+                for (i = 0; i < cnt; i++) vp_field_hex(text[i], strlen(text[i]));
+                vp_end();
+            }
+            for (i = 0; i < cnt; i++) free(text[i]);
+            ly_ctx_destroy(c);
         } else if (!strcmp(op, "printmod") && (r.ntok == 5)) {
             size_t n;
             char *mn = vp_unhex(r.tok[3], &n), *text = NULL;
